@@ -320,8 +320,11 @@ Definition comp_projection (fs : list frame) : list line := map LGood (filter is
 Inductive ckres := CkNone | CkErr | CkSome (f : option frame).
 Definition header_project (ls : list line) : option (list line) :=    (* None = a line failed to parse *)
   option_map comp_projection (all_good ls).
+(* a zero-length derived sidecar is a lost sidecar, not the history of a thread without such frames
+   (ensure_*_sidecar_best_effort_v1, derived_sidecar_holds_data; S4c, fixed in /repo) *)
+Definition comp_seen (comp : sfile) : sfile := match comp with Some [] => None | _ => comp end.
 Definition latest_ckpt_cache (bmax_events bmax_bytes : N) (comp full : sfile) (max_to : N) : ckres :=
-  let file := match comp with
+  let file := match comp_seen comp with
               | Some ls => Some (Some ls)
               | None => match full with
                         | None => Some None
@@ -340,6 +343,17 @@ Definition latest_ckpt_cache (bmax_events bmax_bytes : N) (comp full : sfile) (m
     | STail fs_rev cpl => if cpl then CkSome (latest_ckpt max_to None fs_rev) else CkErr   (* /repo c5f41f6 *)
     | _ => CkErr
     end
+  end.
+
+(* the reader before the S4c fix: a zero-length checkpoint sidecar `exists` and scans as a complete empty history *)
+Definition latest_ckpt_cache_unfixed (bmax_events bmax_bytes : N) (comp full : sfile) (max_to : N) : ckres :=
+  match comp with
+  | Some ls =>
+    match scan_back bmax_events bmax_bytes ls with
+    | STail fs_rev cpl => if cpl then CkSome (latest_ckpt max_to None fs_rev) else CkErr
+    | _ => CkErr
+    end
+  | None => latest_ckpt_cache bmax_events bmax_bytes None full max_to
   end.
 
 (* compaction_status_v1.latest_checkpoint: the checkpoint sidecar (as found, or built from the full
@@ -620,6 +634,16 @@ Fixpoint recover_default_from (ws : N) (best : option (N * N)) (cs : list create
     else recover_default_from ws best r
   end.
 Definition recover_default (ws : N) (cs : list created) : option N := recover_default_from ws None cs.
+(* S15 fix in /repo: branch / handoff children (threads whose stream carries a continuity_branched /
+   continuity_handoff_created frame) are never the workspace default; the scan recovers the newest thread that is
+   not such a child and, only when every thread of the workspace is one, the newest.  `recover_default` alone is
+   the scan before the fix. *)
+Definition not_child (children : list N) (c : created) : bool := negb (existsb (N.eqb (cr_id c)) children).
+Definition recover_default_fixed (ws : N) (cs : list created) (children : list N) : option N :=
+  match recover_default ws (filter (not_child children) cs) with
+  | Some id => Some id
+  | None => recover_default ws cs
+  end.
 
 (* ---------- correspondence cases ---------- *)
 Inductive query :=
@@ -702,8 +726,9 @@ Record case := {
   c_ord : list ord_step;      (* observed write steps of the ordinal index in this history (first case of a history only) *)
   c_comp : option (option (list rline));  (* Some = the checkpoint sidecar as found, for QLatestCkpt cases where nothing can
                                              rebuild the caches before the look-up; None = not compared *)
-  c_recover : option (N * list created * option N);  (* a default-thread recovery observed after the loss of index.json:
-                                             workspace, continuity_created frames of the log, what ensure_default returned *)
+  c_recover : option (N * list created * list N * option N);  (* a default-thread recovery observed after the loss of index.json:
+                                             workspace, continuity_created frames of the log, the threads with a branched /
+                                             handoff frame, what ensure_default returned *)
   c_ordidx : option ofile     (* QCutPoints on a store with intact full and messages+runs sidecars: the ordinal index as found *)
 }.
 
@@ -735,7 +760,7 @@ Definition check_case (k : consts) (c : case) : bool :=
      | _, _, _ => true
      end
   && match c_recover c with
-     | Some (ws, cs, got) => option_eqb N.eqb (recover_default ws cs) got
+     | Some (ws, cs, children, got) => option_eqb N.eqb (recover_default_fixed ws cs children) got
      | None => true
      end.
 
